@@ -144,14 +144,14 @@ theorem final_walk_sub (X : SchemaX) (o : VOpts) (f : List DNode → DNode → D
 
 /-- the nodes of that level, one by one -/
 theorem final_walk_clean (X : SchemaX) (o : VOpts) (f : List DNode → DNode → DNode × Out) (cxf : Cx) : ∀ (l before bf : List DNode),
-    (walkList f before l).2.errs = [] →
-    (∀ x ∈ l, ∀ b, (f b x).2.errs = [] → ∀ b', fxCleanN X (finalNode X o cxf b' (f b x).1).1) →
+    noDupErr (walkList f before l).2.errs →
+    (∀ x ∈ l, ∀ b, noDupErr (f b x).2.errs → ∀ b', fxCleanN X (finalNode X o cxf b' (f b x).1).1) →
     fxCleanL X (finalKids X o cxf bf (walkList f before l).1).1
   | [], _, _, _, _ => by simp [walkList, finalKids, fxCleanL]
   | n :: ns, before, bf, he, h => by
     rw [walkList] at he ⊢
     dsimp only at he ⊢
-    rw [Out.append_errs, List.append_eq_nil_iff] at he
+    rw [Out.append_errs, noDupErr_append] at he
     rw [finalKids]
     dsimp only
     rw [fxCleanL]
@@ -167,13 +167,13 @@ theorem newLoop_fxSub (X : SchemaX) (o : VOpts) (cx : Cx) (l : List DNode) : fxS
 /-- **one level after `lyd_validate_new` and `lyd_new_implicit`** (repaired variant, no DUPCASE reported): every choice the level visits
 satisfies the invariant -/
 theorem level_fxG (X : SchemaX) (o : VOpts) (cx cx' : Cx) (hq1 : X.q.implicitInnerCase = false) (hq3 : X.q.casesCountDefault = false)
-    (sk : List STree) (hl : LevelOk X sk) (hsk : X.kidsOf cx.parent = sk) (ks : List DNode) (he : (validateNew X o cx ks).2.errs = []) :
+    (sk : List STree) (hl : LevelOk X sk) (hsk : X.kidsOf cx.parent = sk) (ks : List DNode) (he : noDupErr (validateNew X o cx ks).2.errs) :
     ∀ ch ∈ fxChL sk, fxG ch (implL X o cx' sk (validateNew X o cx ks).1).1 := by
   intro ch hch
   apply implL_fxG X o cx' hq1 sk hl.kinds hl.nodup _ ch hch
   unfold validateNew at he ⊢
   dsimp only at he ⊢
-  rw [Out.append_errs, List.append_eq_nil_iff, hsk] at he
+  rw [Out.append_errs, noDupErr_append, hsk] at he
   rw [hsk]
   obtain ⟨g, _⟩ := (choiceR_fix_est_L X hq3 cx sk ks).1 he.1
   exact fxG_mono (newLoop_fxSub X o cx.keysOld _) (g ch hch)
@@ -182,7 +182,7 @@ theorem level_fxG (X : SchemaX) (o : VOpts) (cx cx' : Cx) (hq1 : X.q.implicitInn
 theorem subtree_clean (X : SchemaX) (o : VOpts) (hq1 : X.q.implicitInnerCase = false) (hq2 : X.q.autodelDirectCase = false)
     (hq3 : X.q.casesCountDefault = false) (hl : KidsLookupOk X) (hw : CaseWf X) : ∀ (fuel : Nat)
     (cx : Cx) (before : List DNode) (n : DNode) (sk : List STree), (∀ k, BelowL k sk → BelowL k X.top) →
-      n.sid ∈ dataSidsL sk → placedCN X n = true → sheightL sk ≤ fuel → (subtreeNode X o fuel cx before n).2.errs = [] →
+      n.sid ∈ dataSidsL sk → placedCN X n = true → sheightL sk ≤ fuel → noDupErr (subtreeNode X o fuel cx before n).2.errs →
       ∀ (cxf : Cx) (bf : List DNode), fxCleanN X (finalNode X o cxf bf (subtreeNode X o fuel cx before n).1).1 := by
   intro fuel
   induction fuel with
@@ -209,7 +209,7 @@ theorem subtree_clean (X : SchemaX) (o : VOpts) (hq1 : X.q.implicitInnerCase = f
       unfold subtreeNode at he ⊢
       dsimp only at he ⊢
       rw [hkids] at he ⊢
-      rw [Out.append_errs, Out.append_errs, List.append_eq_nil_iff, List.append_eq_nil_iff] at he
+      rw [Out.append_errs, Out.append_errs, noDupErr_append, noDupErr_append] at he
       obtain ⟨_, _, _, c4⟩ := level_first X o (cx.descend X.base before (DNode.inner s f m ks))
         (cx.descend X.base before (DNode.inner s f m ks)).keysOld hq1 hq2 k.kids hlev ks hp
       have hG := level_fxG X o (cx.descend X.base before (DNode.inner s f m ks))
@@ -255,10 +255,10 @@ theorem fx_errs_eq (X : SchemaX) (o : VOpts) (t : List DNode) (h : (o.present &&
 theorem validate_clean (X : SchemaX) (o : VOpts) (hq1 : X.q.implicitInnerCase = false) (hq2 : X.q.autodelDirectCase = false)
     (hq3 : X.q.casesCountDefault = false) (hl : KidsLookupOk X) (hw : CaseWf X) (t : List DNode)
     (hp : placedCL X X.top t = true) (hh : sheightL X.top ≤ walkFuel X t) (hpe : (o.present && t.isEmpty) = false)
-    (hv : (validate X o t).errs = []) : fxCleanTop X (validate X o t).tree := by
+    (hv : noDupErr (validate X o t).errs) : fxCleanTop X (validate X o t).tree := by
   obtain ⟨ht, _⟩ := validate_evs_eq X o t hpe
   rw [fx_errs_eq X o t hpe] at hv
-  simp only [Out.append_errs, List.append_eq_nil_iff] at hv
+  simp only [Out.append_errs, noDupErr_append] at hv
   rw [ht]
   obtain ⟨_, _, _, c4⟩ := level_first X o {} {} hq1 hq2 X.top hw.1 t hp
   have hG := level_fxG X o {} {} hq1 hq3 X.top hw.1 rfl t hv.1.1.1
@@ -275,7 +275,7 @@ theorem validate_clean (X : SchemaX) (o : VOpts) (hq1 : X.q.implicitInnerCase = 
 theorem validate_idempotent3 (X : SchemaX) (o : VOpts) (hq1 : X.q.implicitInnerCase = false) (hq2 : X.q.autodelDirectCase = false)
     (hq3 : X.q.casesCountDefault = false)
     (hl : KidsLookupOk X) (hw : CaseWf X) (t : List DNode) (hB : NoNpContInCase X ∨ (npInvL X.base t ∧ newExplL t))
-    (hp : placedCL X X.top t = true) (hh : sheightL X.top ≤ walkFuel X t) (hv : (validate X o t).errs = []) :
+    (hp : placedCL X X.top t = true) (hh : sheightL X.top ≤ walkFuel X t) (hv : noDupErr (validate X o t).errs) :
     (validate X o (validate X o t).tree).tree = (validate X o t).tree ∧
     (validate X o (validate X o t).tree).evs = [] := by
   by_cases hpe : (o.present && t.isEmpty) = true
